@@ -41,10 +41,11 @@ const (
 	behEmpty
 	behZigzag   // common versions: second highest first, then descending, the highest last
 	behPermuted // common versions in a permutation chosen by the scenario's order seed
+	behUnsupportedBare // discovery unsupported, reported as a message-level error: one failed item without Operation
 	nBehaviours
 )
 
-var behNames = []string{"conformant", "discovery-unsupported", "lists-unoffered", "unordered", "duplicates", "empty-list", "zigzag", "permuted"}
+var behNames = []string{"conformant", "discovery-unsupported", "lists-unoffered", "unordered", "duplicates", "empty-list", "zigzag", "permuted", "discovery-unsupported-bare"}
 
 type C13Sc struct {
 	Client   int  `json:"client"`    // bitmask over 1.0..1.4, non-empty
@@ -235,7 +236,11 @@ func execC13(x *X, scAny any) {
 				switch sc.Beh {
 				case behConformant:
 					list = common
-				case behUnsupported:
+				case behUnsupported, behUnsupportedBare:
+					if sc.Beh == behUnsupportedBare {
+						ri.Operation = 0 // (the Operation element is optional in a response item; a server that rejects
+						// the whole message does not echo it)
+					}
 					ri.ResultStatus = kmip.ResultStatusOperationFailed
 					ri.ResultReason = kmip.ResultReasonOperationNotSupported
 					ri.ResultMessage = "Operation not supported"
@@ -419,7 +424,7 @@ func execC13(x *X, scAny any) {
 		} else {
 			exp.fail = true
 		}
-	case sc.Beh == behUnsupported:
+	case sc.Beh == behUnsupported || sc.Beh == behUnsupportedBare:
 		if slices.Contains(cset, kmip.V1_0) {
 			exp.version = kmip.V1_0
 		} else {
@@ -464,7 +469,7 @@ func execC13(x *X, scAny any) {
 	}
 	if exp.full && adopted != exp.version {
 		sig := "not-highest-common"
-		if sc.Beh == behUnsupported && !sc.Real && sc.Enforce < 0 {
+		if (sc.Beh == behUnsupported || sc.Beh == behUnsupportedBare) && !sc.Real && sc.Enforce < 0 {
 			sig = "fallback"
 		}
 		x.Reportf("C13.wrong-version", sig, "%s: adopted %v, expected %v", cell, adopted, exp.version)
